@@ -242,7 +242,9 @@ def jobs(tier):
         K = 12
         for (kind, m, s, mapname, reg, dw) in [("shared", 2, 2, "adjacent", False, 8), ("shared", 3, 3, "hole", False, 8), ("shared", 2, 3, "gapped", True, 8),
                                                ("crossbar", 2, 2, "hole", False, 8), ("crossbar", 3, 2, "gapped", False, 8), ("crossbar", 2, 3, "adjacent", True, 8),
-                                               ("shared", 2, 2, "gapped", False, 32), ("shared", 1, 3, "hole", False, 8), ("shared", 2, 3, "nonpow2", False, 8)]:
+                                               ("shared", 2, 2, "gapped", False, 32), ("shared", 1, 3, "hole", False, 8), ("shared", 2, 3, "nonpow2", False, 8),
+                                               # a single slave whose region does not cover the address space: the decoder must still be there
+                                               ("crossbar", 2, 1, "hole", False, 8), ("shared", 2, 1, "hole", True, 8), ("crossbar", 1, 2, "gapped", False, 8)]:
             js.append(Job("wb_%s_%dx%d_%s%s_d%d" % (kind, m, s, mapname, "_reg" if reg else "", dw), build,
                           dict(kind=kind, M=m, S=s, mapname=mapname, register=reg, K=K, dw=dw), cost=m * s))
     js.append(Job("wb_shared_2x2_adjacent_d8_timeout4_fastslaves", build, dict(kind="shared", M=2, S=2, mapname="adjacent", register=False, K=K, timeout=4), cost=4))
